@@ -97,6 +97,7 @@ func padTo(b []byte, n int, fill byte) []byte {
 
 func buildJobs(t *target, thorough bool) []job {
 	var jobs []job
+	lite := !thorough && t.quickLite
 	add := func(class string, run func(emit func([]byte))) { jobs = append(jobs, job{class, run}) }
 
 	for si := range t.seeds {
@@ -117,7 +118,7 @@ func buildJobs(t *target, thorough bool) []job {
 		if L > 128 {
 			chunk = 8
 		}
-		for p0 := 0; p0 < L; p0 += chunk {
+		for p0 := 0; p0 < L && !lite; p0 += chunk {
 			p0 := p0
 			if !thorough && p0 >= s.cold[0] && p0+chunk <= s.cold[1] {
 				continue
@@ -258,6 +259,9 @@ func buildJobs(t *target, thorough bool) []job {
 		}
 	}
 	// G6
+	if lite {
+		return jobs
+	}
 	if t.strN >= 0 {
 		add("strings<=1", func(emit func([]byte)) {
 			emit([]byte{})
